@@ -29,13 +29,21 @@ def build_content(d, allow_empty, cr_ok):
     if kind == 0 and allow_empty:
         return [], True, False
     n = 1 + d(12, "content.n") if kind != 1 else 1
+    many = d(40, "content.many") == 39
+    if many:
+        # many short lines: line counts around powers of two (block-wise processing of lines)
+        n = [4095, 4096, 4097, 8193][d(4, "content.many.n")]
     cr = cr_ok and d(5, "content.cr") == 4
     lines = []
     long_at = d(n, "content.long.at") if d(8, "content.long") == 7 else None
     for i in range(n):
         s = PALETTE[d(len(PALETTE), "content.line")]
-        if s != "" or d(2, "content.tag_empty") == 1:
+        if many:
+            s = f"{i}|{s[:6]}"
+        elif s != "" or d(2, "content.tag_empty") == 1:
             s = f"{i}|{s}"
+        if i == 0 and d(12, "content.bom") == 11:
+            s = "\ufeff" + s      # a byte order mark is content like any other character
         if long_at == i:
             s += "L" * (8192 + 700) + "é" * 10
         if cr:
@@ -379,8 +387,12 @@ class Spec:
         choice = Choice(run_seed, replay)
         plan = build_plan(choice, tier)
         tmpdir = tempfile.mkdtemp(prefix="verif-c11-")
+        from sim.coop import StepCap
         try:
             viol, sched, fp, stats = execute(plan, choice, tmpdir, trace)
+        except StepCap:
+            shutil.rmtree(tmpdir, ignore_errors=True)
+            emit({"verdict": "inconclusive"})
         finally:
             shutil.rmtree(tmpdir, ignore_errors=True)
         probes = {}
